@@ -42,7 +42,7 @@ fn run_e1_seeds(cx: &Ctx, rep: &mut Report, oracles: Oracles, probes: &[Probe], 
         if rare_seeds {
             seeds.extend(rare_keygen_seeds(api.p, cx.seed, rare_cap(cx.tier)).into_iter().map(|(_, s)| s));
         }
-        let cfg = E1Cfg { depth, seeds: seeds.clone(), oracles, probes, history_check: history };
+        let cfg = E1Cfg { depth, seeds: seeds.clone(), oracles, probes, history_check: history, full_probe_seeds: base_seeds.len() };
         let r = e1::run(api, &cfg, rep);
         // stateright cross-check of the state graph (same transition function, independent explorer)
         let sr = if with_sr {
